@@ -472,9 +472,21 @@ def rule_gfx(ctx, res, sizes):
     a form it cannot follow, whole-function evaluation on symbolic sheet
     memory for a fixed set of calls"""
     mark = len(res.instances)
+    G = 'pico8.gfx.gfx:Gfx'
     try:
         _rule_gfx_symbolic(ctx, res, sizes)
         if not any(i.verdict == 'UNDECIDED' for i in res.instances[mark:]):
+            # the symbolic rule bounds every index and fixes the nibble
+            # parity for ALL arguments; WHICH pixel lands in which nibble
+            # (sprite id -> sheet position, offsets, the clip at 128) is
+            # decided by evaluating listed calls on symbolic sheet memory
+            _set_sprite_evaluated(
+                ctx, res, ctx.model.func(G + '.set_sprite'), sizes,
+                'addressing clause (the symbolic rule covers bounds and '
+                'parity for all arguments)')
+            _get_sprite_evaluated(ctx, res,
+                                  ctx.model.func(G + '.get_sprite'), sizes,
+                                  {True: 'low', False: 'high'})
             return
         why = next(i.detail for i in res.instances[mark:]
                    if i.verdict == 'UNDECIDED')
@@ -485,7 +497,6 @@ def rule_gfx(ctx, res, sizes):
             and 'set_sprite' not in i.where and 'get_sprite' not in i.where]
     del res.instances[mark:]
     res.instances.extend(kept)
-    G = 'pico8.gfx.gfx:Gfx'
     ok = _set_sprite_evaluated(ctx, res, ctx.model.func(G + '.set_sprite'),
                                sizes, why)
     _get_sprite_evaluated(ctx, res, ctx.model.func(G + '.get_sprite'), sizes,
@@ -923,9 +934,15 @@ def run(ctx, res):
             ctx, sizes.get('music', 256))),
         'rule_gff': ('pico8.gff.gff:Gff', lambda: E.eval_gff(
             ctx, sizes.get('gff', 256))),
-        'rule_map': ('pico8.map.map:Map', lambda: E.eval_map_cells(
-            ctx, sizes.get('map', 4096), sizes.get('gfx', 8192))),
+        'rule_map': ('pico8.map.map:Map', lambda: _both(
+            E.eval_map_cells(ctx, sizes.get('map', 4096),
+                             sizes.get('gfx', 8192)),
+            E.eval_map_rects(ctx, sizes.get('map', 4096),
+                             sizes.get('gfx', 8192)))),
     }
+
+    def _both(a, b):
+        return a[0] + b[0], a[1] + b[1]
     used_fallback = False
     for rule in (rule_sfx, rule_music, rule_gff, rule_gfx, rule_map):
         mark = len(res.instances)
@@ -939,6 +956,20 @@ def run(ctx, res):
         except AnalysisError as e:
             why = str(e)
         if why is None:
+            # decided symbolically for all arguments -- under the methods'
+            # own assertions, which that analysis takes as given.  The
+            # evaluation of listed calls (edges of every documented range)
+            # is run as well: a narrowed assertion or a shifted address
+            # constant shows there as an exception or a wrong byte.
+            fb = fallbacks.get(rule.__name__)
+            if fb is not None:
+                try:
+                    results, calls = fb[1]()
+                    E.report(res, fb[0], results, calls,
+                             'none -- run in addition to the symbolic rule')
+                except AnalysisError as e2:
+                    res.info('R-C17-inverse', fb[0], 'evaluated accessors',
+                             'not followed: ' + str(e2)[:120])
             continue
         fb = fallbacks.get(rule.__name__)
         if fb is None:
@@ -972,6 +1003,13 @@ def run(ctx, res):
             res.info('R-C17-bounds', where, 'rectangle accessors',
                      'get_rect_tiles / set_rect_tiles / get_rect_pixels are '
                      'not covered by the evaluated fallback')
+    try:
+        results, calls = E.eval_extremes(ctx, sizes)
+        E.report(res, 'pico8', results, calls,
+                 'none -- both ends of every documented value range')
+    except AnalysisError as e:
+        res.info('R-C17-inverse', 'setters', 'range ends evaluated',
+                 'not followed: ' + str(e)[:120])
     if not used_fallback:
         res.require_min('R-C17-bounds', 20)
         res.require_min('R-C17-frame', 10)
